@@ -930,7 +930,7 @@ def classify_undefined(name: str, src: Model, runtime_all: list[str] | None) -> 
     head = name.split(".")[0]
     t = src.top
     if head in t.classes or head in t.funcs or head in t.vars or head in t.aliases:
-        kind = src.top_kind(head).replace("conditional-", "")
+        kind = category(src.top_kind(head))
         if head.startswith("_"):
             return f"private-{kind}-omitted-but-referenced"
         if runtime_all is not None and head not in runtime_all:
@@ -941,3 +941,31 @@ def classify_undefined(name: str, src: Model, runtime_all: list[str] | None) -> 
         cls = "typing" if full.split(".")[0] in ("typing", "typing_extensions") else ("relative" if src.rs.how.get(head, "").startswith("from-relative") else "other-module")
         return f"import-not-emitted:{src.rs.how.get(head, '?')}:{cls}"
     return "name-unknown-to-source"
+
+
+_CLASSISH = {"class", "derived-class", "generic-class", "metaclass-class", "abstract-class", "exception", "builtin-subclass",
+             "protocol"}
+
+
+def coarse_kind(kind: str) -> str:
+    """Collapse the plain-class flavours (they share stubgen's code path) in a `top.member` kind."""
+    head, dot, rest = kind.partition(".")
+    pre = ""
+    if head.startswith("conditional-"):
+        pre, head = "conditional-", head[len("conditional-"):]
+    if head in _CLASSISH:
+        head = "class"
+    return pre + head + dot + rest
+
+
+def category(kind: str) -> str:
+    k = kind.replace("conditional-", "")
+    if "typevar" in k:
+        return "typevar"
+    if "function" in k or "generator" in k or "overload" in k:
+        return "function"
+    if "alias" in k or "newtype" in k:
+        return "alias"
+    if "variable" in k:
+        return "variable"
+    return "class"
